@@ -173,7 +173,16 @@ class _Global(ast.NodeTransformer):
                     return None, None
                 inits = dict(tgt_val(p) for p in prev)
                 body_reads = {x.id for b in st.body for x in ast.walk(b.value) if isinstance(x, ast.Name)}
-                if len(prev) == k and len(set(names)) == k and set(inits) == set(names) and all(isinstance(v, ast.Constant) for v in inits.values()) \
+                def _simple_init(v):
+                    "a constant or a fresh empty container: evaluating it has no effect and its value is unobservable when overwritten"
+                    if isinstance(v, ast.Constant):
+                        return True
+                    if isinstance(v, (ast.List, ast.Tuple, ast.Set)) and not v.elts:
+                        return True
+                    if isinstance(v, ast.Dict) and not v.keys:
+                        return True
+                    return isinstance(v, ast.Call) and isinstance(v.func, ast.Name) and v.func.id in ("list", "dict", "tuple", "set") and not v.args and not v.keywords
+                if len(prev) == k and len(set(names)) == k and set(inits) == set(names) and all(_simple_init(v) for v in inits.values()) \
                         and not (set(names) & tnames) and not (set(names) & body_reads):
                     new_sts = []
                     for b in st.body:
@@ -227,6 +236,44 @@ class _Global(ast.NodeTransformer):
                 t = res[-2].test
                 res[-2].test = t.operand if isinstance(t, ast.UnaryOp) and isinstance(t.op, ast.Not) else ast.UnaryOp(op=ast.Not(), operand=t)
                 res[-2].body[0].value, res[-1].value = b_, a_
+        # G21: search loop with a flag:  `f = True` ; `for T in I: if C: f = False; break` ; `if f: X`   (f used nowhere else in the block)
+        #      -> `if not any(C for T in I): X`        (and the dual with f = False / f = True / `if not f`)
+        j = 0
+        while j + 2 < len(res) + 0:
+            a, lp, use = res[j], res[j + 1], res[j + 2]
+            j += 1
+            a_t = a.targets[0] if isinstance(a, ast.Assign) and len(a.targets) == 1 else (a.target if isinstance(a, ast.AnnAssign) and a.value is not None else None)
+            if not (isinstance(a_t, ast.Name) and isinstance(a.value, ast.Constant) and isinstance(a.value.value, bool)):
+                continue
+            fl, init = a_t.id, a.value.value
+            if not (isinstance(lp, ast.For) and not lp.orelse and len(lp.body) == 1 and isinstance(lp.body[0], ast.If) and not lp.body[0].orelse):
+                continue
+            inner = lp.body[0]
+            if not (len(inner.body) == 2 and isinstance(inner.body[1], ast.Break) and isinstance(inner.body[0], ast.Assign) and len(inner.body[0].targets) == 1
+                    and isinstance(inner.body[0].targets[0], ast.Name) and inner.body[0].targets[0].id == fl
+                    and isinstance(inner.body[0].value, ast.Constant) and inner.body[0].value.value is (not init)):
+                continue
+            if not (isinstance(use, ast.If) and not use.orelse):
+                continue
+            t = use.test
+            pos = isinstance(t, ast.Name) and t.id == fl
+            neg = isinstance(t, ast.UnaryOp) and isinstance(t.op, ast.Not) and isinstance(t.operand, ast.Name) and t.operand.id == fl
+            if not (pos or neg):
+                continue
+            others = [x for st_ in (res[:j - 1] + res[j + 2:]) for x in ast.walk(st_) if isinstance(x, ast.Name) and x.id == fl]
+            in_body = [x for st_ in use.body for x in ast.walk(st_) if isinstance(x, ast.Name) and x.id == fl]
+            in_test = [x for x in ast.walk(inner.test) if isinstance(x, ast.Name) and x.id == fl]
+            if others or in_body or in_test:
+                continue
+            found = ast.Call(func=ast.Name(id="any", ctx=ast.Load()), args=[ast.GeneratorExp(elt=inner.test, generators=[
+                ast.comprehension(target=lp.target, iter=lp.iter, ifs=[], is_async=0)])], keywords=[])
+            # the flag ends up == init iff nothing was found; `if f` (pos) runs X iff f is true
+            run_if_found = (pos and not init) or (neg and init)
+            new_if = ast.If(test=found if run_if_found else ast.UnaryOp(op=ast.Not(), operand=found), body=use.body, orelse=[])
+            ast.copy_location(new_if, a)
+            ast.fix_missing_locations(new_if)
+            res[j - 1:j + 2] = [new_if]
+            j = max(j - 1, 0)
         # G10: `xs = []` ... `for T in I: [if C:] xs.append(E)` -> `xs = [E for T in I if C]` (nothing in between mentions xs)
         changed = True
         while changed:
@@ -1593,9 +1640,34 @@ class _LocalAnnotations(ast.NodeTransformer):
         return a
 
 
-def normalize_module(tree: ast.Module, modname: str, log: list[str] | None = None) -> ast.Module:
+def new_module_level_helpers(trees: dict[str, ast.Module]) -> dict[str, dict[str, ast.FunctionDef]]:
+    "module -> {name: FunctionDef} of module-level functions that are new w.r.t. the reference (candidates for cross-module inlining)"
+    ref = reference()["functions"]
+    out: dict[str, dict[str, ast.FunctionDef]] = {}
+    for mod, tree in trees.items():
+        if not any(q.startswith(mod + ".") for q in ref):
+            continue
+        for st in tree.body:
+            if isinstance(st, ast.FunctionDef) and f"{mod}.{st.name}" not in ref and not st.decorator_list \
+                    and not any(isinstance(x, (ast.Yield, ast.YieldFrom, ast.Await)) for x in ast.walk(st)):
+                out.setdefault(mod, {})[st.name] = st
+    return out
+
+
+def normalize_module(tree: ast.Module, modname: str, log: list[str] | None = None, foreign_helpers: dict[str, dict[str, ast.FunctionDef]] | None = None) -> ast.Module:
     log = log if log is not None else []
     ref = reference()["functions"]
+    # helpers that are new in *another* module and imported here by name (`from pkg.mod import _helper`)
+    imported: dict[str, ast.FunctionDef] = {}
+    if foreign_helpers:
+        for st in ast.walk(tree):
+            if isinstance(st, ast.ImportFrom) and st.module:
+                src = st.module
+                for cand_mod, fs in foreign_helpers.items():
+                    if cand_mod == src or cand_mod.endswith("." + src) or src.endswith("." + cand_mod.rsplit(".", 1)[-1]) and cand_mod.rsplit(".", 1)[-1] == src.rsplit(".", 1)[-1]:
+                        for a in st.names:
+                            if a.name in fs and cand_mod != modname:
+                                imported[a.asname or a.name] = _Global().visit(copy.deepcopy(fs[a.name]))
     tree = _Global().visit(tree)
     fns = _functions(tree, modname)
     known_mod = any(q.startswith(modname + ".") for q in ref)
@@ -1603,9 +1675,9 @@ def normalize_module(tree: ast.Module, modname: str, log: list[str] | None = Non
         return _fix(tree)
     new = [(q, f, c, b) for q, f, c, b in fns if q not in ref]
     # R1: inline new helpers (only those without decorators other than staticmethod/classmethod)
-    if new:
+    if new or imported:
         fn_quals = {q for q, _, _, _ in fns}
-        helpers: dict[str, tuple[ast.FunctionDef, bool]] = {}
+        helpers: dict[str, tuple[ast.FunctionDef, bool]] = {k: (v, False) for k, v in imported.items()}
         for q, f, c, b in new:
             decos = [_dotted(d) for d in f.decorator_list]
             if any(d not in ("staticmethod", "classmethod") for d in decos):
